@@ -303,6 +303,25 @@ def check_bm_failed(ctx):
     ctx.expect(paths, ret=2)
 
 
+def check_bm_after_dead(ctx):
+    size = 1 << 32
+    bx = ctx.sandbox_base(32, "bx", aligned=False)
+    by = ctx.sandbox_base(32, "by", aligned=False)
+    cellx = ctx.sym("cellx", 64)
+    celly = ctx.sym("celly", 64)
+    v = ctx.sym("v", 64)
+    ctx.assume(z3.UGE(cellx, bx), z3.ULE(cellx - bx, BV(size - 4, 64)), z3.UGE(celly, by), z3.ULE(celly - by, BV(size - 4, 64)))
+    ctx.assume(z3.Or(v == 0, z3.And(z3.UGT(v, by), z3.ULT(v - by, BV(size, 64)))))
+    paths = ctx.run("k_bm_after_dead_lookup", [bx, by, cellx, celly, v])
+    for q in paths:
+        if q.status == "ret":
+            lg = [e for e in q.user["log"] if e[0] == 1][0]
+            ctx.require(q, z3.And(lg[1] == rep_of(v, by, 32), q.ret == v),
+                        "a destroyed sandbox is never consulted again: pointers in the new sandbox are translated relative to the new sandbox, wherever it lies")
+    ctx.only(paths, "ret")
+    ctx.expect(paths, ret=1)
+
+
 def validate_bm(ctx, k, vecs, B):
     # map three regions natively: reuse Ctx.validate with a custom mapping via mem pokes is not enough; build cases by hand
     if ctx.native is None:
@@ -372,6 +391,7 @@ def jobs(tier, seed):
     for k in ("k_bm_store_load", "k_bm_load", "k_bm_store_null_load"):
         out.append(Job("C04_BM_" + k, src, [dict(name="BM " + k, fn=check_bm, kw=dict(k=k))], unwind=200))
     out.append(Job("C04_BM_cross", src, [dict(name="BM k_bm_store_load value in any live sandbox", fn=check_bm, kw=dict(k="k_bm_store_load", cross=True))], unwind=200, native=False))
+    out.append(Job("C04_BM_after_dead", src, [dict(name="BM lookup after the previously used sandbox was destroyed", fn=check_bm_after_dead)], unwind=200, native=False))
     out.append(Job("C04_BM_failed_create", src, [dict(name="BM k_bm_failed_create", fn=check_bm_failed)], unwind=200, native=False))
     from specs import C07
     out.append(Job("C04_BM_more", '#include "C07_bm2.inc"\n', [dict(name="BM " + k, fn=C07.check_bm2, kw=dict(k=k)) for k in ("k_bm_store_nested", "k_bm_load_nested", "k_bm_store_fnptr", "k_bm_ctx_fnptrptr")], native=False))
